@@ -33,6 +33,7 @@ var c09scens = []struct {
 	{"slog", c09slog, nil},
 	{"sugar", c09sugar, nil},
 	{"sloggroups", nil, c09slogGroups},
+	{"edge", c09edge, nil}, // c09_edge.go
 }
 
 func c09build(scen int, warm bool, shape string) *c09scen {
